@@ -1,7 +1,7 @@
-/* C12 — the WebSocket endpoint follows RFC 6455 and is transparent for JSON-RPC.
+/* C12 - the WebSocket endpoint follows RFC 6455 and is transparent for JSON-RPC.
  *   section 0: handshake header product judged by a reference "is this a valid upgrade offering jet" predicate; the accept
  *              digest is recomputed by the harness's own SHA-1 / base64;
- *   section 1: transparency — a session whose hostile peer speaks websocket must produce the same JSON payloads on every
+ *   section 1: transparency - a session whose hostile peer speaks websocket must produce the same JSON payloads on every
  *              connection as the twin execution in which it speaks the raw protocol;
  *   section 2: server frames around the 126 / 65536 length boundaries (get over many large states), content equal to the raw twin;
  *   section 3: ping with every payload length 0..125 x mask keys x buffer alignments => pong with the identical payload;
